@@ -55,7 +55,7 @@ mod verif_exh_real {
                 return Exp::Val(0.0);
             }
             let k = scale + per_e * e;
-            // n < 2^24 here: exact in f64; 2^k exact inside the normal range. Near / beyond the ends of the f64 range
+            // n fits u128 (<= 12 mantissa octets here); 2^k exact inside the normal range. Near / beyond the ends of the f64 range
             // (overflow to infinity, subnormals) only "accepted" is compared, not the digits.
             if k > 900 || k < -900 {
                 return Exp::AnyValue;
@@ -150,6 +150,32 @@ mod verif_exh_real {
                 }
             }
         }
+    }
+    // long mantissas (X.690 puts no bound on N): 5..12 octets, boundary octet values, with small exponents
+    #[test]
+    fn exhaustive_real_long_mantissas() {
+        let b = [0x00u8, 0x01, 0x7f, 0x80, 0xff];
+        for f0 in [0x80u8, 0xc0, 0x88] {
+            for e in [0x00u8, 0x01, 0xff, 0x10, 0xf0] {
+                for len in 5..=12usize {
+                    for &first in b.iter() {
+                        for &mid in b.iter() {
+                            for &last in b.iter() {
+                                let mut c = vec![f0, e];
+                                c.push(first);
+                                for _ in 0..len - 2 {
+                                    c.push(mid);
+                                }
+                                c.push(last);
+                                check(&c);
+                            }
+                        }
+                    }
+                }
+            }
+        }
+        // 10^20 sent as N = integer, E = 0
+        check(&[0x80, 0x00, 0x05, 0x6b, 0xc7, 0x5e, 0x2d, 0x63, 0x10, 0x00, 0x00]);
     }
     // C16: the value depends on the contents octets only and the remainder is exactly what follows the element
     #[test]
